@@ -246,8 +246,10 @@ def run_ellipse(c, res):
                     what = 'ellipse(%s, channels=%r, center=%r, a=%r, b=%r, theta=%r, log=%r)' % (cn, chans, c['center'], a, b, th, log)
                     swap = cn == 'fcs-swap'
                     try:
-                        full = FlowCal.gate.ellipse(data, chans, center=c['center'], a=a, b=b, theta=th, log=log, full_output=True)
-                        short = FlowCal.gate.ellipse(data, chans, center=c['center'], a=a, b=b, theta=th, log=log)
+                        # the flags as a caller may have computed them: Python booleans, NumPy booleans (scale == 'log'), 0 / 1
+                        logf = [log, np.bool_(log), int(log), np.array([log])[0]][(ti + AXES.index(a)) % 4]
+                        full = FlowCal.gate.ellipse(data, chans, center=c['center'], a=a, b=b, theta=th, log=logf, full_output=[True, np.bool_(True), 1][ti % 3])
+                        short = FlowCal.gate.ellipse(data, chans, center=c['center'], a=a, b=b, theta=th, log=logf)
                     except Exception as ex:
                         res.violation('ellipse:raises:%s' % cn, '%s raised %s: %s' % (what, type(ex).__name__, ex), one)
                         continue
